@@ -197,5 +197,6 @@ def run(rep, tier):
     rep.floor('generated classes examined', stats['classes'], 12)
     freevar_protocol(rep)
     reference_pass_order(rep)
+    shared.entry_closure_rule(rep)
     from .. import controls
     controls.e1_controls(rep)
